@@ -1565,7 +1565,17 @@ VmTrap vm_core_execute(VmState *vm) {
             NanoValue v = stack_pop(vm);
             switch (v.tag) {
                 case TAG_INT:   stack_push(vm, v); break;
-                case TAG_FLOAT: stack_push(vm, val_int((int64_t)v.as.f64)); break;
+                case TAG_FLOAT: {
+                    /* Converting NaN or a double outside the int64 range is undefined in C: saturate (NaN -> 0) */
+                    double d = v.as.f64;
+                    int64_t iv;
+                    if (d != d) iv = 0;
+                    else if (d >= 9223372036854775808.0) iv = INT64_MAX;
+                    else if (d < -9223372036854775808.0) iv = INT64_MIN;
+                    else iv = (int64_t)d;
+                    stack_push(vm, val_int(iv));
+                    break;
+                }
                 case TAG_BOOL:  stack_push(vm, val_int(v.as.boolean ? 1 : 0)); break;
                 case TAG_U8:    stack_push(vm, val_int(v.as.u8)); break;
                 case TAG_ENUM:  stack_push(vm, val_int(v.as.i64)); break;
